@@ -299,16 +299,24 @@ Definition hist_model (inp : list N) : list N :=
 
 (** * Zero-sized element types: the same machine observed through counts only
     (family 2).  Per step: outcome, dimensions, [data().len()], live elements. *)
-Definition enc_step_zst (h : hstate) (ob : hobs) : list N :=
+Definition enc_step_zst (leaked_so_far : nat) (h : hstate) (ob : hobs) : list N :=
   let t := h_td h in
   [if ob_ok ob then 1%N else 0%N; N.of_nat (num_cols t); N.of_nat (num_rows t);
-   N.of_nat (length (data t)); N.of_nat (length (data t))].
+   N.of_nat (length (data t)); N.of_nat (length (data t) + leaked_so_far)].
+(** live elements = those the array owns + everything leaked so far (a faulting iterator
+    makes insert_row / insert_col leak; zero-sized elements are counted, not identified) *)
+Fixpoint enc_steps_zst (acc : nat) (l : list (hstate * hobs)) : list N :=
+  match l with
+  | [] => []
+  | (h, ob) :: tl =>
+      let acc' := acc + length (ob_leaked ob) in
+      enc_step_zst acc' h ob ++ enc_steps_zst acc' tl
+  end.
 
 Definition zst_model (inp : list N) : list N :=
   match run_parser p_hist inp with
   | None => BAD_CASE
   | Some (cf, ops) =>
       enc_res (l <- hrun cf h_init ops ;;
-               Ok (concat (map (fun p => enc_step_zst (fst p) (snd p)) l)
-                   ++ [N.of_nat (total_leaked l)]))
+               Ok (enc_steps_zst 0 l ++ [N.of_nat (total_leaked l)]))
   end.
